@@ -1,24 +1,36 @@
 (* MK.Case — syntax of the histories printed by harness/src/mkdrv.rs and boolean
    equalities on states / reports, shared by C04/C05/C06 Corr.v.  Definitions only. *)
-From GV Require Import lib.Base C01.Model MK.Market MK.Swap.
+From GV Require Import lib.Base C01.Model MK.Market MK.Swap MK.Liquidity.
 Open Scope Z_scope.
 
-Record deposit_report := mkDR { dr_minted : Z; dr_impact : Z; dr_fees_long : fees; dr_fees_short : fees }.
-Record withdraw_report := mkWR { wr_long_out : Z; wr_short_out : Z; wr_fees_long : fees; wr_fees_short : fees }.
+(* The harness market after a call.  [PFull] prints every field.  [PUpd] prints the five
+   fields a liquidity / swap action may write (supply, liquidity, swap impact, claimable fee,
+   virtual inventory for swaps); the driver uses it only after comparing every other field
+   of the Rust market before / after the call with `==` (otherwise it prints [PFull]). *)
+Inductive post :=
+| PFull (s : mstate)
+| PUpd (supply : Z) (prim imp fe : pool) (vi : option pool).
 
-(* [s'] is always the harness market after the call.  For OSwap it is whatever the real
-   `execute` left behind (success or failure); for ODeposit/OWithdraw the driver restores the
-   pre-state on failure (these actions mutate in place and rely on the caller's revert). *)
+Definition resolve (pre : mstate) (p : post) : mstate :=
+  match p with
+  | PFull s => s
+  | PUpd supply prim imp fe vi =>
+      set_vi_swaps (set_fee (set_swap_impact (set_primary (set_supply pre supply) prim) imp) fe) vi
+  end.
+
+(* The post-state is always the harness market after the call.  For OSwap it is whatever the
+   real `execute` left behind (success or failure); for ODeposit/OWithdraw the driver restores
+   the pre-state on failure (these actions mutate in place and rely on the caller's revert). *)
 Inductive op :=
-| OSet (s' : mstate)
-| OSwap (is_long_in : bool) (amount : Z) (ps : prices) (r : res swap_report) (s' : mstate)
-| ODeposit (l s : Z) (ps : prices) (r : res deposit_report) (s' : mstate)
-| OWithdraw (amount : Z) (ps : prices) (r : res withdraw_report) (s' : mstate).
+| OSet (s' : post)
+| OSwap (is_long_in : bool) (amount : Z) (ps : prices) (r : res swap_report) (s' : post)
+| ODeposit (l s : Z) (ps : prices) (r : res deposit_report) (s' : post)
+| OWithdraw (amount : Z) (ps : prices) (r : res withdraw_report) (s' : post).
 
 Inductive case := Hist (w dec : Z) (cfg : config) (init : mstate) (ops : list op).
 
-Definition op_post (o : op) : mstate :=
-  match o with OSet s' | OSwap _ _ _ _ s' | ODeposit _ _ _ _ s' | OWithdraw _ _ _ _ s' => s' end.
+Definition op_post (pre : mstate) (o : op) : mstate :=
+  resolve pre (match o with OSet s' | OSwap _ _ _ _ s' | ODeposit _ _ _ _ s' | OWithdraw _ _ _ s' => s' end).
 
 (* ---------- boolean equalities ---------- *)
 Definition pool_eqb (a b : pool) : bool := (p_long a =? p_long b) && (p_short a =? p_short b).
@@ -63,10 +75,6 @@ Definition res_match {R} (eqr : R -> R -> bool) (pre : mstate) (m : res (mstate 
   | _, _ => false
   end.
 
-(* token holdings of the market for one side: liquidity + swap impact + claimable fees *)
-Definition holdings (s : mstate) (is_long : bool) : Z :=
-  pamount (primary s) is_long + pamount (swap_impact s) is_long + pamount (fee s) is_long.
-
 (* the virtual inventory for swaps, when present, moves by the same deltas as the liquidity pool *)
 Definition vi_tracks (a b : mstate) : bool :=
   match vi_swaps a, vi_swaps b with
@@ -75,4 +83,25 @@ Definition vi_tracks (a b : mstate) : bool :=
       (p_short y - p_short x =? p_short (primary b) - p_short (primary a))
   | None, None => true
   | _, _ => false
+  end.
+
+(* model vs implementation on every action of a history (swap, deposit, withdrawal); direct
+   field writes (OSet) are taken from the implementation *)
+Fixpoint corr_ops_all (w unit : Z) (cfg : config) (s : mstate) (ops : list op) : bool :=
+  match ops with
+  | [] => true
+  | o :: rest =>
+      (match o with
+       | OSet _ => true
+       | OSwap il a ps r _ => res_match sr_eqb s (swap_exec w unit cfg s il a ps) r (op_post s o)
+       | ODeposit l sh ps r _ => res_match dr_eqb s (deposit_exec w unit cfg s l sh ps) r (op_post s o)
+       | OWithdraw a ps r _ => res_match wr_eqb s (withdraw_exec w unit cfg s a ps) r (op_post s o)
+       end) && corr_ops_all w unit cfg (op_post s o) rest
+  end.
+
+(* index (0-based) of the first action on which model and implementation differ, for debugging *)
+Fixpoint first_diff (w unit : Z) (cfg : config) (s : mstate) (ops : list op) (i : Z) : Z :=
+  match ops with
+  | [] => -1
+  | o :: rest => if corr_ops_all w unit cfg s [o] then first_diff w unit cfg (op_post s o) rest (i + 1) else i
   end.
